@@ -18,14 +18,16 @@ class C39(E1Prop):
     budget = {'quick': 80, 'thorough': 2000}
     search_budget = {'quick': 100, 'thorough': 2000}
     level_text = ('Safety, after every step of the real scheduler / canceller loop bodies, worker reports, preemptions and cancellations on small committed batches: '
-                  'a job in Running/Creating has an attempt row that is its current attempt, un-ended, on a live instance. Liveness, after a fair run to quiescence '
+                  'a job in Running/Creating has an attempt row that is its current attempt, un-ended, on a live instance; terminal states are absorbing; a Running job '
+                  'falls back to Ready only when its current attempt was ended (no two live attempts that were both current). Liveness, after a fair run to quiescence '
                   '(every loop runs, every running job finishes): every committed job is terminal, always_run jobs did not end Cancelled, every batch and job group with '
                   'jobs is complete, no un-ended attempt remains on an active instance. The submission prefix is compared op by op with the Lean model BatchDB.')
     level_note = ('Partial: actor steps are whole loop bodies / whole transactions in scripted orders (real asyncio concurrency of the driver loops and HTTP to workers are '
                   'not exhibited); the autoscaler is replaced by "a fresh active instance appears after a preemption"; the server is harness/minisql. The Lean measure '
                   'theorem is claimed only when Props/C39.lean exists.')
     rule = ('case = submission prefix (1-2 committed updates of 1-5 pool jobs in nested groups with DAG parents) + script of 4-16 actor steps '
-            '(S scheduler, R/U/O canceller loops, W worker outcome, D duplicate report, F preemption, C cancel group) + fair run to quiescence; '
+            '(S scheduler, R/U/O canceller loops, W worker outcome, D duplicate report, F preemption, C cancel group, X second attempt reports started '
+            '= orphan, L late unschedule of the completed attempt) + fair run to quiescence; '
             'non-trivial = at least one job was scheduled by the real scheduler and one cancel or fault occurred; distinct by (prefix, script)')
 
     def make_history(self, rng):
@@ -47,8 +49,17 @@ class C39(E1Prop):
             act = actors.Actors(w, random.Random(c.get('aseed', 0)))
             fail = None
             for a in c.get('actors', []):
+                before = act.view()
                 act.step(a)
-                fail = actors.safety(act.view())
+                after = act.view()
+                fail = actors.safety(after) or actors.transition_safety(before, after)
+                for t, cond in (('orphan-attempt-unscheduled', a == 'O' and any(
+                        x['end_time'] is None and x['attempt_id'].startswith('orphan') and
+                        after.attempts[(x['batch_id'], x['job_id'], x['attempt_id'])]['end_time'] is not None for x in before.attempts.values())),
+                                ('late-unschedule-of-completed-attempt', a == 'L' and act.last_complete is not None),
+                                ('orphan-attempt-recorded', a == 'X' and len(after.attempts) > len(before.attempts))):
+                    if cond and t not in res.tags:
+                        res.tags.append(t)
                 if fail:
                     fail = (fail[0], f'after actor step {a!r} (steps so far {act.log}): {fail[1]}')
                     break
